@@ -25,8 +25,7 @@ def ptv(spec_dir, module, traces, cfg=None, *, jobs=8, min_chunk=200, env=None, 
     if not traces:
         return {}, []
     n_chunks = max(1, min(jobs, len(traces) // max(1, min_chunk)))
-    size = (len(traces) + n_chunks - 1) // n_chunks
-    chunks = [(i, traces[k:k + size]) for i, k in enumerate(range(0, len(traces), size))]
+    chunks = [(i, traces[i::n_chunks]) for i in range(n_chunks)]  # round robin: heavy and light traces spread evenly
     base = common.scratch()
 
     def work(item):
